@@ -325,12 +325,30 @@ def generate(seed, tier):
             cls = rng.choice(["r", "g", "l", "r", "g"])
             a, b = rng.choice([("1", "2"), ("2", "1"), ("1", "3"), ("2", "3"), ("3", "1")])
             src, dst = cls + a, cls + b
+            if cls != "l" and b != "3":
+                # the two objects differ in what is cached: backward arrays / derivative arrays computed or not,
+                # up to date or not, when the assignment copies some of them
+                if rng.random() < 0.6:
+                    ops.append(rng.choice(["post %s", "post1 %s 0", "d1 %s e0_0", "d2 %s e0_0"]) % dst)
+                if rng.random() < 0.5:
+                    n_, T_, k_ = dims[0] if a == "1" else dims[1] if a == "2" else dims[0]
+                    v = max(rand_emission(rng, k_), 1e-3)
+                    ops.append("setp %s e%d_%d %s" % (src, rng.randrange(T_), rng.randrange(n_), h(v)))
+                elif rng.random() < 0.5:
+                    ops.append(rng.choice(["post %s", "d1 %s e0_0"]) % src)
+            elif cls != "l" and rng.random() < 0.7:
+                # the source of a copy has derivative arrays of some order for some variable
+                ops.append(rng.choice(["d1 %s e0_0", "d2 %s e0_0", "d1 %s e0_0", "post %s"]) % src)
             if b == "3":
                 ops.append("clone %s %s" % (src, dst))
             elif rng.random() < 0.1:
                 ops.append("assign %s %s" % (src, rng.choice(["r", "g", "l"]) + b))      # possibly another class
             else:
                 ops.append("assign %s %s" % (src, dst))
+            if cls != "l" and rng.random() < 0.7:
+                # queried at once: what the copy answers from the copied caches
+                ops.append(rng.choice(["post %s", "postb %s A 1", "post1 %s 0", "sl %s 0", "sls %s", "d1 %s e0_0", "d2 %s e0_0",
+                                       "d2 %s e0_0", "dsite %s 0", "d2site %s 0"]) % dst)
             # both evolve independently afterwards
             for o in (dst, src):
                 tag = o[1]
